@@ -18,13 +18,16 @@ theorem view_eq_map : ∀ ms : Members, view ms = ms.toList.map (fun p => (p.1, 
   | .nil => rfl
   | .cons k j ms => by simp [view, Members.toList, view_eq_map ms]
 
-/-- what `visit_map` does with the value of a `_kind` member -/
-def kindStep (v : Val) (cont : List Char → Res Val) : Res Val :=
+/-- the early return of `visit_map`: accepted by serde_json only when no member is left (`earlyReturn`) -/
+def earlyR (last : Bool) (v : Val) : Res Val := if last then .ok v else .err
+
+/-- what `visit_map` does with the value of a `_kind` member; `last`: no member is left after it -/
+def kindStep (v : Val) (last : Bool) (cont : List Char → Res Val) : Res Val :=
   match v with
   | .str kd =>
-    if kd == s "marker" then .ok .marker
-    else if kd == s "remove" then .ok .remove
-    else if kd == s "na" then .ok .na
+    if kd == s "marker" then earlyR last .marker
+    else if kd == s "remove" then earlyR last .remove
+    else if kd == s "na" then earlyR last .na
     else if knownKinds.any (fun x => s x == kd) then cont kd
     else .err
   | _ => .err
@@ -35,9 +38,12 @@ def runR : List (List Char × Res Val) → List Char → List (List Char × Val)
   | (k, r) :: l, kind, d =>
     match r with
     | .ok v =>
-      if k == s "_kind" then kindStep v (fun kd => runR l kd d)
+      if k == s "_kind" then kindStep v l.isEmpty (fun kd => runR l kd d)
       else runR l kind (insertTag k v d)
     | .err => .err | .panic => .panic | .diverge => .diverge | .depth => .depth
+
+theorem earlyReturn_eq (ms : Members) (v : Val) : earlyReturn ms v = earlyR (view ms).isEmpty v := by
+  cases ms <;> simp [earlyReturn, earlyR, view]
 
 theorem visitMap_eq_runR : ∀ (ms : Members) (kind : List Char) (d : List (List Char × Val)),
     visitMap ms kind d = runR (view ms) kind d
@@ -51,7 +57,7 @@ theorem visitMap_eq_runR : ∀ (ms : Members) (kind : List Char) (d : List (List
       simp only []
       by_cases hk : (k == s "_kind") = true
       · simp only [hk, if_true]
-        cases v <;> simp [kindStep, ih]
+        cases v <;> simp [kindStep, ih, earlyReturn_eq]
       · simp only [hk]
         simp [ih]
     | err => rfl
@@ -105,19 +111,29 @@ def isEarly (r : Res Val) : Bool :=
 def IsOk (r : Res Val) : Prop := ∃ v, r = .ok v
 def OkOrErr (r : Res Val) : Prop := (∃ v, r = .ok v) ∨ r = .err
 
-/-- the order hypothesis on decoded members: either every value decoded, or no `_kind` member makes the
-visitor return early and every failure is the plain `Err` -/
+/-- the order hypothesis on decoded members: no `_kind` member makes the visitor return early (an early
+return is accepted only after the LAST member, so its outcome depends on the position of `_kind` whatever the
+other members are), and every failure is the plain `Err` -/
 def OrderHyp (l : List (List Char × Res Val)) : Prop :=
-  (∀ p ∈ l, IsOk p.2) ∨ (∀ p ∈ l, OkOrErr p.2 ∧ (p.1 = s "_kind" → isEarly p.2 = false))
+  ∀ p ∈ l, OkOrErr p.2 ∧ (p.1 = s "_kind" → isEarly p.2 = false)
 
-theorem kindStep_err (v : Val) (h : isEarly (.ok v) = false) : kindStep v (fun _ => .err) = .err := by
+theorem kindStep_err (v : Val) (last : Bool) (h : isEarly (.ok v) = false) :
+    kindStep v last (fun _ => .err) = .err := by
   cases v <;> simp [kindStep]
   rename_i x
   simp [isEarly] at h
   simp [h]
 
-theorem kindStep_congr (v : Val) (f g : List Char → Res Val) (h : ∀ kd, f kd = g kd) :
-    kindStep v f = kindStep v g := by
+/-- on a kind that is not an early-return kind, what is left after the member does not matter -/
+theorem kindStep_last (v : Val) (b1 b2 : Bool) (c : List Char → Res Val) (h : isEarly (.ok v) = false) :
+    kindStep v b1 c = kindStep v b2 c := by
+  cases v <;> simp [kindStep]
+  rename_i x
+  simp [isEarly] at h
+  simp [h]
+
+theorem kindStep_congr (v : Val) (last : Bool) (f g : List Char → Res Val) (h : ∀ kd, f kd = g kd) :
+    kindStep v last f = kindStep v last g := by
   have : f = g := funext h
   rw [this]
 
@@ -127,64 +143,54 @@ theorem runR_swap (a b : List Char × Res Val) (l : List (List Char × Res Val))
   obtain ⟨ka, ra⟩ := a
   obtain ⟨kb, rb⟩ := b
   simp only at hne
-  have swapOk : ∀ va vb, ra = .ok va → rb = .ok vb →
-      runR ((kb, rb) :: (ka, ra) :: l) kind d = runR ((ka, ra) :: (kb, rb) :: l) kind d := by
-    intro va vb ea eb
-    subst ea; subst eb
+  obtain ⟨oa, na⟩ := h (ka, ra) (by simp)
+  obtain ⟨ob, nb⟩ := h (kb, rb) (by simp)
+  simp only at na nb oa ob
+  rcases oa with ⟨va, ea⟩ | ea <;> rcases ob with ⟨vb, eb⟩ | eb
+  · subst ea; subst eb
     by_cases ha : ka = s "_kind"
     · have hb : ¬ kb = s "_kind" := fun e => hne (ha.trans e.symm)
-      simp [runR, ha, hb]
+      simp only [runR, ha, hb, beq_self_eq_true, if_true, beq_iff_eq, if_false]
+      exact kindStep_last va _ _ _ (na ha)
     · by_cases hb : kb = s "_kind"
-      · simp [runR, ha, hb]
+      · simp only [runR, ha, hb, beq_self_eq_true, if_true, beq_iff_eq, if_false]
+        exact kindStep_last vb _ _ _ (nb hb)
       · simp [runR, ha, hb, insertTag_comm ka kb va vb hne d]
-  rcases h with h | h
-  · obtain ⟨va, ea⟩ := h (ka, ra) (by simp)
-    obtain ⟨vb, eb⟩ := h (kb, rb) (by simp)
-    exact swapOk va vb ea eb
-  · obtain ⟨oa, na⟩ := h (ka, ra) (by simp)
-    obtain ⟨ob, nb⟩ := h (kb, rb) (by simp)
-    simp only at na nb
-    rcases oa with ⟨va, ea⟩ | ea <;> rcases ob with ⟨vb, eb⟩ | eb
-    · exact swapOk va vb ea eb
-    · -- a decoded, b failed
-      subst ea; subst eb
-      by_cases ha : ka = s "_kind"
-      · simp [runR, ha, kindStep_err va (na ha)]
-      · simp [runR, ha]
-    · subst ea; subst eb
-      by_cases hb : kb = s "_kind"
-      · simp [runR, hb, kindStep_err vb (nb hb)]
-      · simp [runR, hb]
-    · subst ea; subst eb
-      simp [runR]
+  · -- a decoded, b failed
+    subst ea; subst eb
+    by_cases ha : ka = s "_kind"
+    · simp [runR, ha, kindStep_err va _ (na ha)]
+    · simp [runR, ha]
+  · subst ea; subst eb
+    by_cases hb : kb = s "_kind"
+    · simp [runR, hb, kindStep_err vb _ (nb hb)]
+    · simp [runR, hb]
+  · subst ea; subst eb
+    simp [runR]
 
 theorem OrderHyp.of_perm {l1 l2 : List (List Char × Res Val)} (hp : l1.Perm l2) (h : OrderHyp l1) :
-    OrderHyp l2 := by
-  rcases h with h | h
-  · exact Or.inl (fun p hp2 => h p (hp.mem_iff.mpr hp2))
-  · exact Or.inr (fun p hp2 => h p (hp.mem_iff.mpr hp2))
+    OrderHyp l2 := fun p hp2 => h p (hp.mem_iff.mpr hp2)
 
 theorem OrderHyp.tail {a : List Char × Res Val} {l : List (List Char × Res Val)} (h : OrderHyp (a :: l)) :
-    OrderHyp l := by
-  rcases h with h | h
-  · exact Or.inl (fun p hp => h p (List.mem_cons_of_mem _ hp))
-  · exact Or.inr (fun p hp => h p (List.mem_cons_of_mem _ hp))
+    OrderHyp l := fun p hp => h p (List.mem_cons_of_mem _ hp)
 
 /-- **member order does not matter**: decoded members with pairwise distinct keys, under `OrderHyp` -/
 theorem runR_perm {l1 l2 : List (List Char × Res Val)} (hp : l1.Perm l2) :
     (l1.map (·.1)).Nodup → OrderHyp l1 → ∀ kind d, runR l1 kind d = runR l2 kind d := by
   induction hp with
   | nil => intros; rfl
-  | cons a _ ih =>
+  | @cons a l1 l2 hp12 ih =>
     intro hn hh kind d
     have hn' := (List.nodup_cons.mp hn).2
     have ih' := ih hn' hh.tail
+    have hhd := hh a (by simp)
     obtain ⟨k, r⟩ := a
     cases r with
     | ok v =>
       by_cases hk : k = s "_kind"
       · simp only [runR, hk, beq_self_eq_true, if_true]
-        exact kindStep_congr v _ _ (fun kd => ih' kd d)
+        rw [kindStep_last v l1.isEmpty l2.isEmpty _ (hhd.2 hk)]
+        exact kindStep_congr v _ _ _ (fun kd => ih' kd d)
       · simp [runR, hk, ih']
     | err => rfl
     | panic => rfl
@@ -195,20 +201,20 @@ theorem runR_perm {l1 l2 : List (List Char × Res Val)} (hp : l1.Perm l2) :
     have hne : a.1 ≠ b.1 := by
       intro e
       simp [e] at hn
-    have h2 : OrderHyp [a, b] := by
-      rcases hh with h | h
-      · exact Or.inl (fun p hp => h p (by
-          rcases List.mem_cons.mp hp with e | hp
-          · simp [e]
-          · simp at hp; simp [hp]))
-      · exact Or.inr (fun p hp => h p (by
-          rcases List.mem_cons.mp hp with e | hp
-          · simp [e]
-          · simp at hp; simp [hp]))
+    have h2 : OrderHyp [a, b] := fun p hp => hh p (by
+      rcases List.mem_cons.mp hp with e | hp
+      · simp [e]
+      · simp at hp; simp [hp])
     exact runR_swap a b l hne h2 kind d
   | trans h1 _ ih1 ih2 =>
     intro hn hh kind d
     rw [ih1 hn hh kind d]
     exact ih2 ((h1.map _).nodup_iff.mp hn) (hh.of_perm h1) kind d
+
+/-- an object with at most one member has one member order -/
+theorem perm_eq_of_length_le_one {α : Type} {l1 l2 : List α} (hp : l1.Perm l2) (h : l1.length ≤ 1) : l1 = l2 := by
+  match l1, h with
+  | [], _ => exact (List.perm_nil.mp hp.symm).symm
+  | [a], _ => exact (List.perm_singleton.mp hp.symm).symm
 
 end Hs.Hayson
